@@ -1005,6 +1005,7 @@ func (c *ctx) info(g gInfo, class string, nperm int) {
 	if base.panicked != "" {
 		return
 	}
+	c.sent(g, base, lines)
 	if !wellFormed(g) {
 		r.Hist["not-well-formed"]++
 		// Equal sort keys.  Ill-formed per XEP-0115 5.4 (equal non-empty FORM_TYPEs, a
